@@ -180,6 +180,7 @@ class Engine(object):
         self.pidx = {pid: i + 1 for i, (_, pid, _) in enumerate(f.params)}
         self.ptypes = {pid: t for (_, pid, t) in f.params}
         self.max_leaves = max_leaves
+        self.join_of = {id(n.ast): n.id for n in self.cfg.nodes if n.kind == 'join' and n.ast is not None}
         self.loops_of = {}
         self._index_loops(f.body, [])
         self.order = {n: i for i, n in enumerate(self.cfg.rpo())}
@@ -824,7 +825,8 @@ class Engine(object):
                   'rhs_idx_reads': self.index_reads_of(rhs, env) if rhs is not None else set(),
                   'idx_vals': self.scalar_idents(idx, env) if idx is not None else set(),
                   'rhs_pairs': self.load_pairs(rhs, env) if rhs is not None else [],
-                  'loops': self.loop_info(lv, env)}
+                  'loops': self.loop_info(lv, env),
+                  'loop_heads': [self.join_of[id(l)] for l in self.loops_of.get(id(lv), []) if id(l) in self.join_of]}
             self.cur_events.append(ev)
         self.cur_stores = []
 
